@@ -64,7 +64,7 @@ def st_tip(n):
     return dict(ensures=[C("rule", f"res == spec_tip(self.network, self.height, {n})", "C20", "C17", char=True)])
 
 def ts_insert():
-    return dict(ensures=[C("exact", "final(self)@ == old(self)@.insert(spec_txhash(txn), txn)", "C02")])
+    return dict(ensures=[C("exact", "final(self)@ == old(self)@.insert(spec_txhash(txn), txn)", "C02", "C06", "C07")])
 
 def ap_faucet_pseudocoin():
     return dict(ensures=[C("id", "res == spec_marker(txhash)", "C19")])
@@ -298,7 +298,7 @@ def ap_extract_input_coins():
     return dict(
         requires=[C("wf", "state.coins.wf()")],
         ensures=[C("dom", "res is Ok ==> forall|id: CoinID| #[trigger] res->Ok_0@.contains_key(id) <==> (spent_by(transactions@, transactions@.len() as int, id) && !coins_so_far@.contains_key(id))", "C02"),
-                 C("val", "res is Ok ==> forall|id: CoinID| #[trigger] res->Ok_0@.contains_key(id) ==> state.coins@.coins.contains_key(id) && res->Ok_0@[id] == state.coins@.coins[id]", "C02"),
+                 C("val", "res is Ok ==> forall|id: CoinID| #[trigger] res->Ok_0@.contains_key(id) ==> state.coins@.coins.contains_key(id) && res->Ok_0@[id] == state.coins@.coins[id]", "C02", "C01"),
                  C("err", """res is Err ==> res->Err_0 is NonexistentCoin && spent_by(transactions@, transactions@.len() as int, res->Err_0->NonexistentCoin_0)
                         && !coins_so_far@.contains_key(res->Err_0->NonexistentCoin_0) && !state.coins@.coins.contains_key(res->Err_0->NonexistentCoin_0)""", "C02")])
 
@@ -343,7 +343,7 @@ def ap_load_relevant_coins():
         requires=[C("wf", "this.coins.wf()")],
         ensures=[C("rel", "res is Ok ==> rel_of(*this, txx@, res->Ok_0@)", "C02", "C01", "C19"),
                  C("wellformed", "res is Ok ==> forall|q: int| 0 <= q < txx@.len() ==> spec_well_formed(#[trigger] txx@[q]) && outputs_fit(txx@[q]) && cov_weights_fit(txx@[q])", "C02", "C09", "C05"),
-                 C("nodup", "res is Ok ==> inputs_distinct(txx@)", "C02"),
+                 C("nodup", "res is Ok ==> inputs_distinct(txx@)", "C02", "C01", "C03"),
                  C("err", "res is Err ==> res->Err_0 is MalformedTx || res->Err_0 is NonexistentCoin", "C02", char=True)])
 
 def mm_extract_pool_keys():
